@@ -240,7 +240,8 @@ def build_extract(name: str, timeout: int = 600) -> Tuple[bool, str]:
     drv = COQ / "extract" / f"driver_{name}.ml"
     with BuildLock():
         shutil.copy(drv, out_dir / "driver.ml")
-        libs = ["drvlib.ml"] + (["drv440.ml"] if "Drv440" in drv.read_text() else [])
+        dtext = drv.read_text()
+        libs = ["drvlib.ml"] + [f"drv{n}.ml" for n in ("440", "graph") if f"Drv{n}" in dtext or (n == "440" and "Drvgraph" in dtext)]
         for lib in libs:
             shutil.copy(COQ / "extract" / lib, out_dir / lib)
         p = subprocess.run(
